@@ -367,7 +367,13 @@ pub fn execute(w: &mut World, mut gen: Option<(&mut Rng, usize)>) -> Exec {
         let fresh = AstGrep::new(&model, lang);
         let Some(e) = fresh.root().replace(&p, fix.as_str()) else {
           // no match on the model: the document must agree
-          let r = sut.replace(&p, fix);
+          let r = match std::panic::catch_unwind(std::panic::AssertUnwindSafe(|| sut.replace(&p, fix))) {
+            Ok(r) => r,
+            Err(pm) => {
+              ex.violation = Some(("PANIC".into(), format!("step {i}: the library panicked in replace({pattern:?}): {}", crate::driver::panic_msg(&pm))));
+              return ex;
+            }
+          };
           ex.events.push(format!("replace-nomatch sut={r:?}"));
           if !matches!(r, Ok(false)) {
             ex.violation = Some((
@@ -389,13 +395,20 @@ pub fn execute(w: &mut World, mut gen: Option<(&mut Rng, usize)>) -> Exec {
     new_model.push_str(&model[pos + del..]);
 
     // --- apply to the document under test through the public API
-    let res = match &op {
+    let res = std::panic::catch_unwind(std::panic::AssertUnwindSafe(|| match &op {
       Op::Splice { .. } => sut.edit(pos, del, &ins).map(|_| true),
       Op::Replace { pattern, fix } => {
         let p = Pattern::try_new(pattern, lang).unwrap();
         sut.replace(&p, fix)
       }
       Op::ParseFault => unreachable!(),
+    }));
+    let res = match res {
+      Ok(r) => r,
+      Err(p) => {
+        ex.violation = Some(("PANIC".into(), format!("step {i}: the library panicked while applying {kind} pos={pos} del={del}: {}", crate::driver::panic_msg(&p))));
+        return ex;
+      }
     };
     let faulted = pending_fault;
     pending_fault = false;
@@ -511,7 +524,13 @@ pub fn execute(w: &mut World, mut gen: Option<(&mut Rng, usize)>) -> Exec {
       // later searches see what a fresh parse would see
       let fresh_ag = AstGrep::new(&model, lang);
       for p in &probes {
-        let a = sut.find_ranges(p);
+        let a = match std::panic::catch_unwind(std::panic::AssertUnwindSafe(|| sut.find_ranges(p))) {
+          Ok(a) => a,
+          Err(pm) => {
+            ex.violation = Some(("PANIC".into(), format!("step {i}: find_all on the edited document panicked: {}", crate::driver::panic_msg(&pm))));
+            return ex;
+          }
+        };
         let b: Vec<(usize, usize)> = fresh_ag.root().find_all(p).map(|m| (m.range().start, m.range().end)).collect();
         if a != b {
           ex.violation = Some((
@@ -707,6 +726,7 @@ impl Simulation for EditSim {
     }
   }
   fn run(&self, seed: u64, _tier: &str, _known: &KnownFindings) -> RunReport {
+    crate::cli_run::quiet_panics();
     let (mut w, mut rng, nops) = gen_world(seed);
     let ex = execute(&mut w, Some((&mut rng, nops)));
     let mut r = RunReport::default();
@@ -757,6 +777,7 @@ impl Simulation for EditSim {
     r
   }
   fn replay(&self, doc: &Value, _known: &KnownFindings) -> ReplayOutcome {
+    crate::cli_run::quiet_panics();
     let w: World = match serde_json::from_value(doc["world"].clone()) {
       Ok(w) => w,
       Err(e) => {
